@@ -617,6 +617,10 @@ pub fn check_case(c: &Case) -> Result<CaseInfo, Failure> {
     run_isolated("C07", *c, &run_case)
 }
 
+pub fn check_rand(c: &RandCase) -> Result<CaseInfo, Failure> {
+    run_isolated("C07", c.clone(), &run_rand)
+}
+
 pub fn run(ctx: &Ctx, started: Instant) -> i32 {
     let thorough = ctx.tier == Tier::Thorough;
     let cases = all_cases(thorough);
